@@ -36,6 +36,8 @@ fn c07_verify_without_iss_is_an_error() {
     let k = "sub".to_string();
     jm::register("h.p.s", Header::new(Algorithm::ES256), signed_claims(), 7);
     jm::set_now(1000);
+    // (never reached on a feasible path; keeps CBMC's exploration of the infeasible "iss found" branch cheap)
+    jm::expect(0, true);
     let mut payload = JMap::new();
     std::mem::forget(payload.insert(k, JValue::String(sym_str::<2>(b'a', b'z'))));
     let mut v = mk_verifier(payload);
@@ -53,6 +55,8 @@ fn c07_verify_with_non_string_iss_is_an_error() {
     let n: u64 = 5;
     jm::register("h.p.s", Header::new(Algorithm::ES256), signed_claims(), 7);
     jm::set_now(1000);
+    // (never reached on a feasible path; keeps CBMC's exploration of the infeasible "iss found" branch cheap)
+    jm::expect(0, true);
     let mut payload = JMap::new();
     put(&mut payload, "iss", jnum(n));
     let mut v = mk_verifier(payload);
@@ -69,9 +73,52 @@ fn c07_verify_with_non_string_iss_is_an_error() {
 fn c07_verify_with_empty_payload_is_an_error() {
     jm::register("h.p.s", Header::new(Algorithm::ES256), signed_claims(), 7);
     jm::set_now(1000);
+    // (never reached on a feasible path; keeps CBMC's exploration of the infeasible "iss found" branch cheap)
+    jm::expect(0, true);
     let mut v = mk_verifier(JMap::new());
     let r = v.verify_sd_jwt(Some("ES256".to_string()));
     assert!(r.is_err(), "C07.v3 a token with an empty payload must be refused with an error");
+    kani::cover!(true, "end");
+    std::mem::forget(r); std::mem::forget(v);
+}
+
+/// iss is the empty string: any result but no panic (the resolver decides what to do with it)
+#[kani::proof]
+#[kani::unwind(4)]
+#[kani::stub(alloc::fmt::format, fmt_stub)]
+fn c07_verify_with_empty_iss_does_not_panic() {
+    let mut c = signed_claims();
+    put(&mut c, "iss", jstr(""));
+    jm::register("h.p.s", Header::new(Algorithm::ES256), c, 7);
+    jm::set_now(1000);
+    jm::expect(0, true);
+    let mut payload = JMap::new();
+    put(&mut payload, "iss", jstr(""));
+    let mut v = mk_verifier(payload);
+    let r = v.verify_sd_jwt(Some("ES256".to_string()));
+    assert!(r.is_ok(), "C07.v4 an empty iss is a string: the token verifies under the resolver's key");
+    kani::cover!(true, "end");
+    std::mem::forget(r); std::mem::forget(v);
+}
+
+/// validly signed token whose cnf is not an object (a string of any content): no panic, and no
+/// holder key is taken over
+#[kani::proof]
+#[kani::unwind(4)]
+#[kani::stub(alloc::fmt::format, fmt_stub)]
+fn c07_verify_with_non_object_cnf_does_not_panic() {
+    let mut c = signed_claims();
+    put(&mut c, "iss", jstr("i"));
+    put(&mut c, "cnf", JValue::String(sym_str::<2>(b'a', b'z')));
+    jm::register("h.p.s", Header::new(Algorithm::ES256), c, 7);
+    jm::set_now(1000);
+    jm::expect(0, true);
+    let mut payload = JMap::new();
+    put(&mut payload, "iss", jstr("i"));
+    let mut v = mk_verifier(payload);
+    let r = v.verify_sd_jwt(Some("ES256".to_string()));
+    assert!(r.is_ok(), "C07.v5 a cnf of the wrong JSON type must not make signature verification fail or panic");
+    assert!(v._holder_public_key_payload.is_none(), "C07.v6 a cnf that is not an object confirms no holder key");
     kani::cover!(true, "end");
     std::mem::forget(r); std::mem::forget(v);
 }
